@@ -71,8 +71,12 @@ def s_msgset(draw):
 def s_roundtrip(draw):
     magic = draw(st.sampled_from([0, 1]))
     reqs = draw(st.lists(st.tuples(msgsets.KEY, st.lists(msgsets.VALUE, min_size=1, max_size=4)), min_size=1, max_size=4))
-    return {"dec": "roundtrip", "magic": magic, "gzip": draw(st.booleans()), "now_ms": draw(st.integers(0, 2 ** 41)),
-            "base": draw(st.integers(0, 2 ** 40)), "reqs": [[k, v] for k, v in reqs]}
+    gz = draw(st.booleans())
+    # explicit timestamps (Message is a public type; None = "now"): only for plain format-1 sets, where afkak encodes the caller's objects
+    nmsg = sum(len(v) for _, v in reqs)
+    ts = draw(st.lists(st.one_of(st.none(), st.sampled_from([0, 1, -1, 2 ** 63 - 1]), msgsets.TS), min_size=nmsg, max_size=nmsg)) if (magic == 1 and not gz and draw(st.booleans())) else None
+    return {"dec": "roundtrip", "magic": magic, "gzip": gz, "now_ms": draw(st.integers(0, 2 ** 41)),
+            "base": draw(st.integers(0, 2 ** 40)), "reqs": [[k, v] for k, v in reqs], "ts": ts}
 
 
 @st.composite
@@ -233,6 +237,10 @@ def check(ctx, a):
             reqs = [C.SendRequest("t", k, vs, None) for k, vs in a["reqs"]]
             codec = C.CODEC_GZIP if a["gzip"] else C.CODEC_NONE
             msgs = create_message_set(reqs, codec, magic=a["magic"]) if a["magic"] else create_message_set(reqs, codec)
+            if a.get("ts"):
+                import attr as _attr
+
+                msgs = [_attr.evolve(m, timestamp=t) for m, t in zip(msgs, a["ts"])]
             req = KafkaCodec.encode_produce_request(b"c", 1, [C.ProduceRequest("t", 0, msgs)], api_version=2 if a["magic"] else 0)
         raw_set = rp.parse_request(req)["topics"][0]["partitions"][0]["raw"]
         raw = rp.r_fetch(1, [("t", [(0, 0, 0, raw_set)])], version=2 if a["magic"] else 0)
@@ -246,6 +254,8 @@ def check(ctx, a):
             if out is not None:
                 ts = int((a["now_ms"] / 1000.0) * 1000) if a["magic"] else None  # what int(time.time() * 1000) yields
                 want = [(a["magic"], 0, k, v, ts) for k, vs in a["reqs"] for v in vs]
+                if a.get("ts"):
+                    want = [(w[0], w[1], w[2], w[3], (t if t is not None else ts)) for w, t in zip(want, a["ts"])]
                 seq = [(m.message.magic, m.message.attributes, m.message.key, m.message.value, m.message.timestamp) for m in out]
                 if seq != want:
                     kind = "timestamp-is-tuple" if any(isinstance(s[4], tuple) for s in seq) else "sequence"
